@@ -191,7 +191,7 @@ def all_pairs():
             yield old, r
 
 
-def make_desc(old, route, dest, cfg, pay):
+def make_desc(old, route, dest, cfg, pay, pre=False):
     prov, access, shallow, deep, pickle_ = cfg
     new = spec_new(route, old)
     from_uninit = prov == "PUninit"
@@ -206,7 +206,7 @@ def make_desc(old, route, dest, cfg, pay):
         if calc_id(new) == calc_id(old):
             dest = "DAbsent"
     return {"old": typed(old), "route": route, "dest": dest, "prov": prov, "access": access,
-            "shallow": shallow, "deep": deep, "pickle": pickle_, "pay": pay, "dpay": DPAY}
+            "shallow": shallow, "deep": deep, "pickle": pickle_, "pay": pay, "dpay": DPAY, "pre": bool(pre)}
 
 
 WITNESSES = [   # the inputs of the ..._refuted / ..._example theorems of props/C04.v, replayed on the real code in every run
@@ -248,17 +248,21 @@ def gen_inputs(tier, rng):
                 old, r = lst[i % len(lst)]
                 j = (i + off) % (nd * nc)
                 chosen.append((old, r, DESTS[j % nd], HANDLE_CONFIGS[j // nd]))
+        # half of the cases read id / path / cached_statepoint / repr of the handle and its shallow copies BEFORE the
+        # operation as well
         for old, r, dest, cfg in chosen:
-            descs.append(make_desc(old, r, dest, cfg, rng.choice(PAYLOADS)))
+            descs.append(make_desc(old, r, dest, cfg, rng.choice(PAYLOADS), pre=rng.random() < 0.5))
         for _ in range(40):     # plus a free random mix
             old, r = rng.choice(pairs)
-            descs.append(make_desc(old, r, rng.choice(DESTS), rng.choice(HANDLE_CONFIGS), rng.choice(PAYLOADS)))
+            descs.append(make_desc(old, r, rng.choice(DESTS), rng.choice(HANDLE_CONFIGS), rng.choice(PAYLOADS),
+                                   pre=rng.random() < 0.5))
     else:
         for n, (old, r) in enumerate(pairs):
             for dest in DESTS:
                 cfgs = rng.sample(HANDLE_CONFIGS, 5) + [HANDLE_CONFIGS[0]]
                 for cfg in cfgs:
-                    descs.append(make_desc(old, r, dest, cfg, PAYLOADS[(n + len(descs)) % len(PAYLOADS)]))
+                    descs.append(make_desc(old, r, dest, cfg, PAYLOADS[(n + len(descs)) % len(PAYLOADS)],
+                                           pre=len(descs) % 2 == 0))
     seen, out = set(), []
     for d in descs:
         key = json.dumps(d, sort_keys=True)
@@ -322,6 +326,11 @@ def build_script(desc, calc_id):
         ops.append((0, ["Copy", hm])); c1 = nh; nh += 1
     elif desc["shallow"] >= 2:
         ops += [(0, ["Copy", hm]), (0, ["Copy", nh])]; c1 = nh; c2 = nh + 1; nh += 2
+    if desc.get("pre"):
+        # the shallow copies are read through repr(), which shows cached_statepoint
+        for k, x in enumerate([hm, c1, c2]):
+            if x is not None:
+                ops += [(80 + 2 * k, ["IdPath", x]), (81 + 2 * k, ["Cached" if k == 0 else "Repr", x])]
     if route[0] == "edit":
         main = ["Edit", hm, route[1], route[2]]
     elif route[0] == "assign":
@@ -378,16 +387,16 @@ def run_case(desc):
     with scratch_dir("c04") as d:
         W = wsops.World(d)
         for tag, op in script:
-            if op[0] in ("Sp", "Cached", "IdPath", "Doc", "Init", "Copy") and op[1] >= len(W.handles):
+            if op[0] in ("Sp", "Cached", "Repr", "IdPath", "Doc", "Init", "Copy") and op[1] >= len(W.handles):
                 out = ["exn", "EOther"]      # the handle the script expects does not exist
             else:
                 out = W.run(op)
             outs.append(wsops.coq_oval(L, out))
             log.append([tag, op, out if out[0] != "tree" else ["tree", len(out[1])]])
-    inp = "(mkIn4 %s %s %s %s %s %s %s %s %s %s)" % (
+    inp = "(mkIn4 %s %s %s %s %s %s %s %s %s %s %s)" % (
         L.json(untyped(desc["old"])), coq_pay(L, desc["pay"]), desc["prov"], coq_bool(desc["access"]),
         coq_nat(desc["shallow"]), coq_bool(desc["deep"]), coq_bool(desc["pickle"]), coq_route(L, desc["route"]),
-        desc["dest"], coq_pay(L, desc["dpay"]))
+        desc["dest"], coq_pay(L, desc["dpay"]), coq_bool(desc.get("pre", False)))
     body = "(mkCase4 %s %s %s)" % (L.ftab(), inp, coq_list(outs, "oval"))
     main_out = next(o for t, _, o in log if t == 2)
     old = untyped(desc["old"])
@@ -400,6 +409,8 @@ def run_case(desc):
         kinds.append("deepcopy")
     if desc["pickle"]:
         kinds.append("pickle")
+    if desc.get("pre"):
+        kinds.append("read-before")
     if desc["route"][0] == "edit" and desc["route"][1]:
         kinds.append("nested")
     return Case(L.wrap(body), desc, obs=log, nontrivial=changes, key=json.dumps(desc, sort_keys=True), kinds=kinds)
@@ -414,4 +425,4 @@ def search(desc):
         out.append({**base, "dest": dest})
     out.append({**desc, "pay": PAYLOADS[0]})
     return [make_desc(untyped(o["old"]), o["route"], o["dest"],
-                      (o["prov"], o["access"], o["shallow"], o["deep"], o["pickle"]), o["pay"]) for o in out]
+                      (o["prov"], o["access"], o["shallow"], o["deep"], o["pickle"]), o["pay"], o.get("pre", False)) for o in out]
